@@ -296,6 +296,10 @@ def normalize_url(
     if infer_redirection:
         url = resolve(url)
 
+        # NOTE: redirection inference is a pre-step: an inferred target that
+        # cannot be parsed is what must be returned unchanged
+        original_url_arg = url
+
     url = CONTROL_CHARS_RE.sub("", url)
     url = url.strip()
     url = upper_quoted(url)
